@@ -63,6 +63,7 @@ Fixpoint mutg (ml : bool) (n : node) {struct n} : node :=
   | IfThen p c a b => IfThen p (mutg ml c) (map (mutg ml) a) (map (mutg ml) b)
   | Jump _ _ | Jz _ _ _ | ExitRepeat _ => n
   | Tell p o body => Tell p (mutg ml o) (map (mutg ml) body)
+  | ObjRef k nm p i => ObjRef k nm p (mutg ml i)
   end.
 Definition mut_lingo := mutg true.
 Definition mut_js := mutg false.
